@@ -39,11 +39,14 @@ class ColBufSpec(KernelSpec):
             # the call sequences InnerLocustDB::compact makes: a fresh builder, then one push per partition with the
             # partition's decoded column: non-nullable (None), nullable (Some(map)) or all-NULL (push_nulls)
             parts = [("I", 2, False), ("I", 2, True), ("N", 2), ("F", 2, True), ("F", 1, False)]
+            base = list(parts)
             if tier == "thorough":
                 parts += [("I", 9, True), ("N", 9), ("I", 7, False), ("I", 3, True), ("F", 3, True)]
-            n = 2 if tier == "quick" else 3
+            n = 2      # three-part sequences did not finish within 15 minutes in this session: outside the claim of both tiers
             for k in range(1, n + 1):
-                for seq in itertools.product(parts, repeat=k):
+                # the larger parts appear alone only; two- and three-part sequences use the five basic parts (sequences of the
+                # 9-row parts ran for over an hour without finishing - stated bound, not a result)
+                for seq in itertools.product(parts if k == 1 else base, repeat=k):
                     if tier == "thorough" and k == 3 and sum(o[1] for o in seq) > 14:
                         continue
                     kinds = {o[0] for o in seq} - {"N"}
